@@ -13,3 +13,139 @@ for q in PDU_ENCODERS:
     c.returns('bytes')
     c.prop('C02', 'C04', 'C05', 'C12')
     c.ensure('len(result) >= 6 and byte_at(result, 0) == self.pdu_type', 'type-byte')
+
+
+# =====================================================================================
+# Codec contracts (C01 round trip, C02 standard layout, totality for C12 later).
+#
+# For every class K:      ghost v : K, rest : bytes
+#   K.decode   requires  valid(v)  and the stream holds  v.encode() ++ rest
+#              ensures   rt-value:    result == v          (field by field, nested items in order)
+#                        rt-consumed: exactly |v.encode()| bytes were consumed (rem == rest)
+#   K.total_length / item_length
+#              ensures   len:         result == len(self.encode())     (the item's extent)
+#   K.encode   ensures   std:         result == wire_K(self)           (PS3.8 / PS3.7 layout, C02)
+# `v.encode()` in a requires clause is the *real* encoder: C01 never mentions the standard.
+# =====================================================================================
+L = 'L'   # the layouts spec module is bound to the name L in the spec prelude
+
+# key, valid predicate, std printer, what may follow the item in a stream ('any' | 'not-0x40')
+ITEM_CLASSES = [
+    ('userdataitems.MaximumLengthSubItem', 'L.valid_sub_item', 'L.wire_sub_item', 'any'),
+    ('userdataitems.ImplementationClassUIDSubItem', 'L.valid_sub_item', 'L.wire_sub_item', 'any'),
+    ('userdataitems.ImplementationVersionNameSubItem', 'L.valid_sub_item', 'L.wire_sub_item', 'any'),
+    ('userdataitems.AsynchronousOperationsWindowSubItem', 'L.valid_sub_item', 'L.wire_sub_item', 'any'),
+    ('userdataitems.ScpScuRoleSelectionSubItem', 'L.valid_sub_item', 'L.wire_sub_item', 'any'),
+    ('userdataitems.SOPClassExtendedNegotiationSubItem', 'L.valid_sub_item', 'L.wire_sub_item', 'any'),
+    ('userdataitems.UserIdentityNegotiationSubItem', 'L.valid_sub_item', 'L.wire_sub_item', 'any'),
+    ('userdataitems.UserIdentityNegotiationSubItemAc', 'L.valid_sub_item', 'L.wire_sub_item', 'any'),
+    ('userdataitems.GenericUserDataSubItem', 'L.valid_sub_item', 'L.wire_sub_item', 'any'),
+    ('pdu.AbstractSyntaxSubItem', 'L.valid_abstract_syntax', 'L.wire_abstract_syntax', 'any'),
+    ('pdu.TransferSyntaxSubItem', 'L.valid_transfer_syntax', 'L.wire_transfer_syntax', 'any'),
+    ('pdu.ApplicationContextItem', 'L.valid_var_item', 'L.wire_var_item', 'any'),
+    ('pdu.PresentationContextItemAC', 'L.valid_var_item', 'L.wire_var_item', 'any'),
+    ('pdu.PresentationDataValueItem', 'L.valid_pdv', 'L.wire_pdv', 'any'),
+    ('pdu.PresentationContextItemRQ', 'L.valid_var_item', 'L.wire_var_item', 'not-0x40'),
+    ('pdu.UserInformationItem', 'L.valid_var_item', 'L.wire_var_item', 'any'),
+]
+
+# PDUs: decode takes the raw bytes of exactly one PDU
+PDU_CLASSES = [
+    ('pdu.AAssociateRqPDU', 'pdu.AAssociatePDUBase', 'L.valid_associate(v)', 'L.wire_associate(self, 1)'),
+    ('pdu.AAssociateAcPDU', 'pdu.AAssociatePDUBase', 'L.valid_associate(v)', 'L.wire_associate(self, 2)'),
+    ('pdu.AAssociateRjPDU', 'pdu.AAssociateRjPDU', 'L.valid_rj(v)', 'L.wire_rj(self)'),
+    ('pdu.PDataTfPDU', 'pdu.PDataTfPDU', 'L.valid_pdata(v)', 'L.wire_pdata(self)'),
+    ('pdu.AReleaseRqPDU', 'pdu.AReleasePDUBase', 'L.valid_release(v)', 'L.wire_release(self, 5)'),
+    ('pdu.AReleaseRpPDU', 'pdu.AReleasePDUBase', 'L.valid_release(v)', 'L.wire_release(self, 6)'),
+    ('pdu.AAbortPDU', 'pdu.AAbortPDU', 'L.valid_abort(v)', 'L.wire_abort(self)'),
+]
+
+CODEC = {}   # key -> dict(decode=Contract, length=[Contract], encode=Contract, ...)
+
+
+def _codec_contracts():
+    for key, valid, wire, follow in ITEM_CLASSES:
+        d = contract(key + '.decode@rt')
+        d.qualname = key + '.decode'
+        d.ghost('v', key).ghost('rest', 'bytes')
+        d.require('%s(v)' % valid, 'valid')
+        if follow == 'not-0x40':
+            d.require('len(rest) == 0 or byte_at(rest, 0) != 0x40', 'follow')
+        d.setup = ['stream = stream_of(v.encode() + rest)']
+        d.setup_defines_domain = True
+        d.ensure('result == v', 'rt-value')
+        d.ensure('rem(stream) == rest', 'rt-consumed')
+        d.prop('C01', 'C02')
+        e = contract(key + '.encode@std')
+        e.qualname = key + '.encode'
+        e.require('%s(self)' % valid, 'valid')
+        e.ensure('result == %s(self)' % wire, 'std')
+        e.prop('C02')
+        CODEC[key] = dict(decode=d, encode=e, valid=valid, wire=wire)
+    for key, owner, valid, wire in PDU_CLASSES:
+        d = contract(key + '.decode@rt')
+        d.qualname = owner + '.decode'
+        d.ghost('v', key)
+        d.require(valid, 'valid')
+        d.setup = ['%s = v.encode()' % ('raw_bytes' if owner == 'pdu.AAssociatePDUBase' else 'rawstring')]
+        d.setup_defines_domain = True
+        d.ensure('result == v', 'rt-value')
+        d.prop('C01', 'C02')
+        e = contract(key + '.encode@std')
+        e.qualname = owner + '.encode'
+        e.require(valid.replace('(v)', '(self)'), 'valid')
+        e.ensure('result == %s' % wire, 'std')
+        e.ensure('len(result) == self.total_length()', 'std-total-length')
+        e.prop('C02')
+        CODEC[key] = dict(decode=d, encode=e, valid=valid, wire=wire, owner=owner)
+
+
+_codec_contracts()
+
+
+# =====================================================================================
+# Loop specifications of the four decode loops.  Common shape (ghost `todo` = the items whose
+# encodings are still in the stream, `_xs0` = the whole list, `_acc` = items yielded so far):
+#     content :  rem(stream) == JOIN[encode](todo) (++ fixed tail)
+#     progress:  _acc ++ todo == _xs0
+#     valid   :  every remaining item is valid
+# The ghost initialiser find_join_arg only *proposes* the witness; `content` is checked on entry.
+# =====================================================================================
+def _list_loop(c, where, elem, valid, with_tail=False, peek=None, extra_havoc=None, extra_inv=()):
+    ls = c.loop(where, 0)
+    ls.acc = ('_acc', elem)
+    ls.consts = [('_xs0', 'find_join_arg("encode", rem(stream), "%s")[0]' % elem),
+                 ('_tail0', 'find_join_arg("encode", rem(stream), "%s")[1]' % elem)]
+    ls.ghost = [('todo', 'Seq[%s]' % elem, '_xs0', 'todo[1:]')]
+    ls.havoc = {'stream': 'rstream', '_acc': 'Seq[%s]' % elem}
+    if extra_havoc:
+        ls.havoc.update(extra_havoc)
+    if with_tail:
+        ls.invariants.append(('content', 'rem(stream) == join_map("encode", todo) + _tail0'))
+        ls.invariants.append(('tail', 'len(_tail0) == 0 or byte_at(_tail0, 0) != 0x40'))
+    else:
+        ls.invariants.append(('content', 'rem(stream) == join_map("encode", todo)'))
+    ls.invariants.append(('progress', '_acc + todo == _xs0'))
+    ls.invariants.append(('valid', 'all_map(%s, todo)' % valid))
+    if peek:
+        ls.havoc[peek] = ('recompute', '_next_type(copy_stream(stream))')
+        ls.invariants.append(('peek', 'same(%s, _next_type(copy_stream(stream)))' % peek))
+    for lab, e in extra_inv:
+        ls.invariants.append((lab, e))
+    ls.lemmas_head = ['_y = reveal_head(todo, %s, "encode", "total_length")' % valid]
+    ls.decreases = 'len(rem(stream))'
+    return ls
+
+
+_list_loop(contract('pdu.UserInformationItem.sub_items'), '', 'SubItem', 'L.valid_sub_item', peek='item_type')
+_list_loop(contract('pdu.PresentationContextItemRQ.decode'), 'iter_items', 'pdu.TransferSyntaxSubItem',
+           'L.valid_transfer_syntax', with_tail=True)
+ls = _list_loop(contract('pdu.AAssociatePDUBase.decode'), 'iter_items', 'VarItem', 'L.valid_var_item',
+                peek='item_type')
+# a presentation-context item is followed by the next variable item: its type byte is not 0x40
+ls.lemmas_head.append('_y2 = reveal_head(todo[1:], L.valid_var_item, "encode") '
+                      'if _y is not None and kind_of(_y) == "PresentationContextItemRQ" else None')
+_list_loop(contract('pdu.PDataTfPDU.decode'), 'iter_items', 'pdu.PresentationDataValueItem', 'L.valid_pdv',
+           extra_havoc={'length_read': 'int'},
+           extra_inv=[('length', 'length_read + sum_map("total_length", todo) == pdu_length'),
+                      ('length-nonneg', 'length_read >= 0')])
